@@ -58,6 +58,7 @@ type normalizer struct {
 	inlined map[string]int
 	dropped map[string]bool
 	hoisted map[string]bool
+	sra     []string
 }
 
 // normalizeProgram returns the program the rules are run on and notes for the
@@ -69,9 +70,12 @@ func normalizeProgram(p0 *Program) (*Program, []string) {
 	for k, v := range p0.overlay {
 		overlay[k] = v
 	}
-	for round := 0; round < 5; round++ {
+	for round := 0; round < 8; round++ {
 		nz.p = cur
 		edits := nz.collect()
+		if len(edits) == 0 && !noSRA {
+			edits = nz.collectSRA()
+		}
 		if len(edits) == 0 {
 			edits = nz.collectBoolHoists()
 		}
@@ -115,8 +119,14 @@ func normalizeProgram(p0 *Program) (*Program, []string) {
 		sort.Strings(ks)
 		nz.notes = append(nz.notes, "helpers not in the frozen function table inlined before analysis: "+strings.Join(ks, ", "))
 	}
+	if len(nz.sra) > 0 {
+		sort.Strings(nz.sra)
+		nz.notes = append(nz.notes, "local aggregates replaced by one variable per field before analysis: "+strings.Join(nz.sra, ", "))
+	}
 	return cur, nz.notes
 }
+
+var noSRA = os.Getenv("SUNLINT_NOSRA") != ""
 
 func (nz *normalizer) fresh(kind string) string {
 	nz.counter++
@@ -349,7 +359,7 @@ func (nz *normalizer) candidate(fn *types.Func) (res *helper) {
 	// its call sites (and say more that way than the inlined form would let them say): a helper that
 	// evicts from pool.lowPriority (evict.go: C17.a/b, C02.d) and a helper that parses tile leaves for
 	// the client (C12.b/f)
-	if lowPriorityLoop(f) != nil || (usesReader(f) && sig.Results().Len() == 2) {
+	if lowPriorityLoop(f) != nil || (usesReader(f) && sig.Results().Len() == 2 && fn.Pkg().Path() == modPath) {
 		return nil
 	}
 	if f.Decl.Recv != nil && (len(f.Decl.Recv.List) != 1 || len(f.Decl.Recv.List[0].Names) > 1) {
@@ -791,6 +801,17 @@ func (fc *fileCtx) substitutable(h *helper, param types.Object, arg ast.Expr) bo
 			if tv, ok := fc.pk.Info.Types[x.Index]; ok && tv.Value != nil {
 				return simple(x.X)
 			}
+		case *ast.SliceExpr:
+			// x[:], x[:16]: constant bounds only
+			for _, b := range []ast.Expr{x.Low, x.High, x.Max} {
+				if b == nil {
+					continue
+				}
+				if tv, ok := fc.pk.Info.Types[b]; !ok || tv.Value == nil {
+					return false
+				}
+			}
+			return simple(x.X)
 		}
 		return false
 	}
@@ -973,6 +994,9 @@ func (fc *fileCtx) plan(h *helper, call *ast.CallExpr, at token.Pos) *inlPlan {
 				if o := hinfo.Defs[nm]; o != nil && used[o] {
 					if fc.substitutable(h, o, args[i]) {
 						pl.rename[o] = fc.text(args[i].Pos(), args[i].End())
+						if _, isSlice := ast.Unparen(args[i]).(*ast.SliceExpr); isSlice {
+							pl.rename[o] = "(" + pl.rename[o] + ")"
+						}
 						if u, isAddr := ast.Unparen(args[i]).(*ast.UnaryExpr); isAddr && u.Op == token.AND {
 							pl.rename[o] = "(" + pl.rename[o] + ")"
 							if pl.renameSel == nil {
